@@ -149,6 +149,10 @@ def seed_store(path, n):
     db = TOFUDatabase(path)
     for i in range(n):
         db.trust(HOSTS[i], 1965 + (i % 2), cert_obj(i % 3)[0])
+    # the same host names once more on another port, with another certificate: an operation on host:port must
+    # leave host:other-port alone
+    for i in range(min(n, 2)):
+        db.trust(HOSTS[i], 2001 + i, cert_obj((i + 1) % 3)[0])
     return db
 
 
